@@ -245,8 +245,11 @@ def _op_line(body: list) -> str:
 
 
 def _seen_str(info: dict) -> str:
-    """what the scheduler read about every user with a transfer at a cycle: u:STATUS/friend/priv"""
-    ents = sorted((_uidx(n), v) for n, v in info['users'].items())
+    """what the scheduler read at a cycle about every user with an unfinished transfer: u:STATUS/friend/priv (for a
+    user whose transfers are all finalized the reading cannot matter, and the real untrack request is served one loop
+    step after the decision)"""
+    unf = {u for _k, u, _d, st in info['xs'] if st not in FINAL}
+    ents = sorted((_uidx(n), v) for n, v in info['users'].items() if n in unf)
     return ','.join(f'{u}:{st}/{int(bool(fr))}/{int(bool(pr))}' for u, (st, fr, pr) in ents) or '-'
 
 
@@ -472,18 +475,39 @@ def _monitor(case: dict, impl: dict) -> list[Violation]:
 # --------------------------------------------------------------------------------------------
 
 class _Mirror:
+    """rough mirror of scheduler + tracking (answers of the server arrive right after the cycle that asks)"""
+
     def __init__(self, slots):
         self.slots = slots
         self.xs: list[list] = []          # [user, dir, state]
-        self.users: dict[int, list] = {}
+        self.users: dict[int, list] = {}  # the server's truth + friend flag: [status, friend, priv]
+        self.known: dict[int, list] = {}  # what the client holds: u -> [status, priv] (tracked users only)
+        self.plist: set = set()
         self.pending = False
         self.t = 0.0
         self.wake = 0.0
 
-    def info(self, u):
+    def truth(self, u):
         return self.users.get(u, ['UNKNOWN', False, False])
 
+    def info(self, u):
+        st, pr = self.known.get(u, ['UNKNOWN', u in self.plist])
+        return [st, self.truth(u)[1], pr]
+
+    def set_user(self, u, st, fr, pr):
+        self.users[u] = [st, fr, pr]
+        if u in self.known and st != 'UNKNOWN':
+            self.known[u] = [st, pr]
+            self.pending = True
+
     def cycle(self):
+        unf = {x[0] for x in self.xs if x[2] not in FINAL}
+        asked = [u for u in unf if u not in self.known]
+        for u in list(self.known):
+            if u not in unf:
+                del self.known[u]
+        for u in asked:
+            self.known[u] = ['UNKNOWN', u in self.plist]
         busy = {x[0] for x in self.xs if x[1] == 'U' and x[2] in ('INITIALIZING', 'UPLOADING')}
         seen, cand = set(), []
         for k, (u, d, st) in enumerate(self.xs):
@@ -500,7 +524,10 @@ class _Mirror:
         sel = cand[:free]
         for k in sel:
             self.xs[k][2] = 'INITIALIZING'
-        self.pending = bool(sel)
+        self.pending = bool(sel) or bool(asked)
+        for u in asked:                      # the answers
+            if self.truth(u)[0] != 'UNKNOWN':
+                self.known[u][0] = self.truth(u)[0]
         self.wake = self.t + 0.05
         return len(cand), free
 
@@ -513,74 +540,114 @@ class _Mirror:
 
 
 def _gen_case(rng: random.Random, max_ops: int = 12) -> dict:
-    """85 %: a contended population is set up first (more users with queued uploads than slots, mixed ranks, all queued
-    inside one sleep of the management job so that the next cycle has to rank), then <= max_ops ops that keep freeing
-    and re-filling slots; 15 %: free-form sequence from an empty manager (covers slots 0, single user, idle cycles)."""
+    """85 %: a contended population is set up first (more users with queued uploads than slots, mixed ranks, one to three
+    uploads per user in interleaved arrival order); 15 %: free-form sequence from an empty manager (covers slots 0,
+    single user, idle cycles).  Contended set-ups are `cold` (all queued inside one sleep of the management job: the
+    cycle that has to rank has heard nothing from the server yet, friend list / privileged list decide) or `warm` (queued
+    with no slot: the client starts tracking, the server answers, some queued uploads are aborted, statuses change; then
+    slots open and the cycle ranks users it knows).  Then <= max_ops ops that keep freeing and re-filling slots."""
     ops: list[list] = []
     contended = rng.random() < 0.85
+    warm = False
     if contended:
         slots = rng.choice([1, 1, 2, 2, 3, 3, 4])
         nusers = min(5, slots + rng.randint(1, 2))
-        m = _Mirror(slots)
-        kind_profile = rng.choice(['contention', 'contention', 'limits', 'churn', 'churn'])
-        # mixed ranks; the first setUser wakes the idle job, which then sleeps 0.05 s: everything with dt = 0 below
-        # is queued before the next cycle
-        first = True
+        warm = rng.random() < 0.55
+        m = _Mirror(0 if warm else slots)
+        kind_profile = rng.choice(['contention', 'contention', 'limits', 'churn', 'churn', 'tracking', 'tracking'])
         # more eligible (not offline) users than slots: at most nusers - slots - 1 users start offline
         offline = set(rng.sample(range(nusers), rng.randint(0, max(0, nusers - slots - 1))))
         for u in range(nusers):
-            if first or u in offline or rng.random() < 0.7:
-                st = 'OFFLINE' if u in offline else rng.choice(['UNKNOWN', 'UNKNOWN', 'AWAY', 'AWAY', 'ONLINE', 'ONLINE', 'ONLINE'])
-                fr, pr = rng.random() < 0.4, rng.random() < 0.35
-                ops.append(['setUser', u, st, fr, pr, 0])
-                m.users[u] = [st, fr, pr]
-                if first:
-                    m.pending = True
-                    m.cycle()
-                    first = False
-                m.pending = True
-        arrivals = list(range(nusers)) + [rng.randrange(nusers) for _ in range(rng.randint(0, 2))]
+            st = 'OFFLINE' if u in offline else rng.choice(['UNKNOWN', 'AWAY', 'AWAY', 'ONLINE', 'ONLINE', 'ONLINE'])
+            fr, pr = rng.random() < 0.4, rng.random() < 0.35
+            ops.append(['setUser', u, st, fr, pr, 0])            # nobody is watched yet: the server says nothing
+            m.set_user(u, st, fr, pr)
+        if rng.random() < 0.6:
+            pl = [u for u in range(nusers) if m.truth(u)[2]]
+            ops.append(['privList', pl, 0])
+            m.plist = set(pl)
+        per_user = [rng.choice([1, 1, 2, 2, 3]) if (kind_profile == 'tracking' or rng.random() < 0.4) else 1
+                    for _ in range(nusers)]
+        arrivals = [u for u in range(nusers) for _ in range(per_user[u])]
         rng.shuffle(arrivals)
+        arrivals = arrivals[:9]
         for u in arrivals:
             ops.append(['addUpload', u, 0])
             m.xs.append([u, 'U', 'QUEUED'])
-        m.pending = True
+            if not m.pending and m.t >= m.wake:
+                m.pending = True
+                m.cycle()                    # the idle job serves the first request at once
+            m.pending = True
         w = rng.choice([0.05, 0.05, 0.1])
         ops.append(['wait', w])
         m.tick(w)
+        if warm:
+            # everybody is tracked and answered now; finalize some queued uploads (the later / earlier one of a user with
+            # several), move statuses, then open the slots and trigger a cycle
+            multi = [k for k, x in enumerate(m.xs) if sum(1 for y in m.xs if y[0] == x[0]) > 1]
+            for k in rng.sample(multi, min(len(multi), rng.choice([0, 1, 1, 2, 3]))):
+                ops.append(['abort', k, rng.choice([0, 0, 0.05])])
+                m.xs[k][2] = 'ABORTED'
+            for u in rng.sample(range(nusers), rng.choice([0, 1, 1, 2])):
+                st0, fr0, pr0 = m.truth(u)
+                st = rng.choice(['OFFLINE', 'OFFLINE', 'AWAY', 'ONLINE'])
+                if sum(1 for v in range(nusers) if (st if v == u else m.truth(v)[0]) != 'OFFLINE') <= slots:
+                    st = 'ONLINE'
+                pr = pr0 if rng.random() < 0.7 else not pr0
+                ops.append(['setUser', u, st, fr0, pr, rng.choice([0, 0, 0.05])])
+                m.set_user(u, st, fr0, pr)
+            w = rng.choice([0.05, 0.1, 0.3])
+            ops.append(['wait', w])
+            m.tick(w)
+            ops.append(['setSlots', slots, 0])
+            m.slots = slots
+            u = rng.randrange(nusers)
+            if rng.random() < 0.5:
+                ops.append(['addUpload', u, 0])
+                m.xs.append([u, 'U', 'QUEUED'])
+            else:
+                st0, fr0, pr0 = m.truth(u)
+                ops.append(['setUser', u, st0 if st0 != 'UNKNOWN' else 'ONLINE', fr0, pr0, 0])
+                m.set_user(u, st0 if st0 != 'UNKNOWN' else 'ONLINE', fr0, pr0)
+            m.pending = True
+            w = rng.choice([0.05, 0.1])
+            ops.append(['wait', w])
+            m.tick(w)
     else:
         slots = rng.choice([0, 0, 1, 1, 2, 2, 3, 4])
         nusers = rng.randint(1, 5)
         m = _Mirror(slots)
-        kind_profile = rng.choice(['mixed', 'mixed', 'limits', 'churn'])
+        kind_profile = rng.choice(['mixed', 'mixed', 'limits', 'churn', 'tracking'])
         # initial population of user attributes
         for u in range(nusers):
             if rng.random() < 0.75:
                 st = rng.choice(['UNKNOWN', 'OFFLINE', 'AWAY', 'ONLINE', 'ONLINE'])
                 fr, pr = rng.random() < 0.35, rng.random() < 0.3
                 ops.append(['setUser', u, st, fr, pr, 0])
-                m.users[u] = [st, fr, pr]
-                m.pending = True
+                m.set_user(u, st, fr, pr)
     n = rng.randint(6 if contended else 4, max_ops)
     weights = {'addUpload': 26, 'started': 12, 'finish': 10, 'failX': 5, 'backToQueue': 8, 'requeue': 4, 'apiQueue': 3,
-               'abort': 6, 'abortRace': 3, 'setSlots': 6, 'setUser': 10, 'addDownload': 2, 'wait': 6}
+               'abort': 6, 'abortRace': 3, 'setSlots': 6, 'setUser': 10, 'privList': 2, 'addDownload': 2, 'wait': 6}
     if contended:
         # keep the slots turning over: completions / fall-backs / aborts free slots between cycles, arrivals and rank
         # changes re-order the waiting users, the limit moves while uploads are active
         weights = {'addUpload': 14, 'started': 16, 'finish': 16, 'failX': 7, 'backToQueue': 12, 'requeue': 5, 'apiQueue': 3,
-                   'abort': 6, 'abortRace': 7, 'setSlots': 7, 'setUser': 9, 'addDownload': 1, 'wait': 5}
+                   'abort': 6, 'abortRace': 7, 'setSlots': 7, 'setUser': 9, 'privList': 2, 'addDownload': 1, 'wait': 5}
     if kind_profile == 'contention':
         weights.update({'addUpload': weights['addUpload'] + 12, 'setUser': 14})
     elif kind_profile == 'limits':
         weights.update({'setSlots': 20})
     elif kind_profile == 'churn':
         weights.update({'finish': 20, 'backToQueue': 16, 'failX': 10, 'requeue': 8})
+    elif kind_profile == 'tracking':
+        # users come and go: their uploads are finalized one by one (the user must stay tracked while one is left, is let
+        # go with the last one, comes back with the next request) while the server keeps reporting
+        weights.update({'abort': 16, 'failX': 9, 'finish': 18, 'setUser': 18, 'requeue': 7, 'apiQueue': 5, 'addUpload': 18,
+                        'privList': 3})
     kinds = list(weights)
     for _ in range(n):
         dt = rng.choice([0, 0, 0, 0.05, 0.05, 0.02, 0.1, 0.3])
         m.tick(dt)
-        if m.pending and m.t >= m.wake:
-            pass
         kind = rng.choices(kinds, [weights[k] for k in kinds])[0]
         if len(m.xs) < 2:
             kind = 'addUpload' if rng.random() < 0.8 else kind
@@ -610,17 +677,30 @@ def _gen_case(rng: random.Random, max_ops: int = 12) -> dict:
                 v = max(0, min(4, m.slots + rng.choice([-1, -1, 1, 1, 2])))
             ops.append(['setSlots', v, dt])
             m.slots = v
+        elif kind == 'privList':
+            pl = {u for u in range(nusers) if m.truth(u)[2]}
+            pl ^= {rng.randrange(nusers)}
+            ops.append(['privList', sorted(pl), dt])
+            m.plist = set(pl)
+            for u in range(nusers):
+                st0, fr0, _ = m.truth(u)
+                m.users[u] = [st0, fr0, u in pl]
+                if u in m.known:
+                    m.known[u][1] = u in pl
         elif kind == 'setUser':
             u = rng.randrange(nusers)
-            st = rng.choice(['UNKNOWN', 'OFFLINE', 'OFFLINE', 'AWAY', 'ONLINE', 'ONLINE'])
+            if rng.random() < 0.6:
+                # a user the client is doing something for (watched: the report is delivered)
+                cur = sorted({x[0] for x in m.xs if x[2] not in FINAL})
+                u = rng.choice(cur) if cur else u
+            st = rng.choice(['UNKNOWN', 'OFFLINE', 'OFFLINE', 'OFFLINE', 'AWAY', 'ONLINE', 'ONLINE'])
             fr, pr = rng.random() < 0.35, rng.random() < 0.3
             if rng.random() < 0.5 and u in m.users:      # change one attribute only
                 st0, fr0, pr0 = m.users[u]
                 j = rng.randrange(3)
                 st, fr, pr = (st if j == 0 else st0), (fr if j == 1 else fr0), (pr if j == 2 else pr0)
             ops.append(['setUser', u, st, fr, pr, dt])
-            m.users[u] = [st, fr, pr]
-            m.pending = True
+            m.set_user(u, st, fr, pr)
         else:
             src = {'started': ('INITIALIZING',), 'finish': ('UPLOADING',), 'failX': ('INITIALIZING', 'UPLOADING'),
                    'backToQueue': ('INITIALIZING',), 'requeue': ('FAILED', 'COMPLETE'),
@@ -628,6 +708,13 @@ def _gen_case(rng: random.Random, max_ops: int = 12) -> dict:
                    'abort': ('QUEUED', 'INITIALIZING', 'UPLOADING'),
                    'abortRace': ('UPLOADING', 'UPLOADING', 'INITIALIZING')}[kind]
             cands = by_state(*src)
+            if kind == 'abort' and kind_profile == 'tracking' and rng.random() < 0.7:
+                # an upload of a user who has another one that is not finalized, preferably not next to it in the list
+                def apart(k):
+                    return any(j != k and x[0] == m.xs[k][0] and x[2] not in FINAL and
+                               any(y[0] != x[0] for y in m.xs[min(j, k) + 1:max(j, k)]) for j, x in enumerate(m.xs))
+                pref = [k for k in cands if apart(k)]
+                cands = pref or cands
             if kind == 'abortRace':
                 # prefer an active upload whose user has another upload waiting (the cycle that runs while abort waits
                 # must still see that user as busy)
@@ -649,15 +736,23 @@ def _gen_case(rng: random.Random, max_ops: int = 12) -> dict:
                 m.pending = True
         if m.pending and m.t >= m.wake:
             m.cycle()
-    return {'slots': slots, 'ops': ops, 'kind': ('contended-' if contended else 'free-') + kind_profile}
+    case = {'slots': 0 if warm else slots, 'ops': ops,
+            'kind': ('contended-' + ('warm-' if warm else 'cold-') if contended else 'free-') + kind_profile}
+    # some cases on a slow server connection: the answer to the tracking request takes a while (or is lost); judged by
+    # the monitor only
+    r = rng.random()
+    if r < 0.12:
+        case['net'] = {'reply_delay': rng.choice([0.01, 0.03, 0.06, 0.06, 0.2, 0.2, None])}
+        case['kind'] += '/slow-server'
+    return case
 
 
 # directed schedules, always run
 DIRECTED = [
-    # two users, one slot: the privileged user queued last goes first; completion hands the slot on
+    # two users, one slot: the privileged user (privileged list) queued last goes first; completion hands the slot on
     {'kind': 'directed-priority', 'slots': 1, 'ops': [
-        ['setUser', 1, 'ONLINE', False, True, 0], ['addUpload', 0, 0], ['addUpload', 1, 0], ['wait', 0.1],
-        ['started', 1, 0], ['finish', 1, 0.1], ['wait', 0.3]]},
+        ['privList', [1], 0], ['setUser', 1, 'ONLINE', False, True, 0], ['setSlots', 0, 0], ['addUpload', 0, 0],
+        ['addUpload', 1, 0], ['setSlots', 1, 0.02], ['wait', 0.1], ['started', 1, 0], ['finish', 1, 0.1], ['wait', 0.3]]},
     # an op exactly on the management timer: lands between the scheduling decision and `initialize()`
     {'kind': 'directed-coincide', 'slots': 2, 'ops': [
         ['addUpload', 0, 0], ['addUpload', 1, 0.05], ['abort', 1, 0.05], ['addUpload', 2, 0], ['setSlots', 1, 0.05],
@@ -672,11 +767,22 @@ DIRECTED = [
     {'kind': 'directed-cycle-during-abort', 'slots': 2, 'ops': [
         ['addUpload', 0, 0], ['addUpload', 0, 0], ['wait', 0.1], ['started', 0, 0], ['wait', 0.3], ['abortRace', 0, 0],
         ['wait', 0.3]]},
-    # same user twice, offline user, friend
-    {'kind': 'directed-one-per-user', 'slots': 4, 'ops': [
+    # same user twice, a user the server reports offline (friend and privileged), who then comes back
+    {'kind': 'directed-one-per-user', 'slots': 0, 'ops': [
         ['setUser', 2, 'OFFLINE', True, True, 0], ['addUpload', 0, 0], ['addUpload', 0, 0], ['addUpload', 2, 0],
-        ['addUpload', 1, 0.3], ['started', 0, 0], ['finish', 0, 0.3], ['setUser', 2, 'AWAY', True, True, 0.3],
-        ['wait', 0.3]]},
+        ['wait', 0.1], ['setSlots', 4, 0], ['addUpload', 1, 0], ['wait', 0.3], ['started', 0, 0], ['finish', 0, 0.3],
+        ['setUser', 2, 'AWAY', True, True, 0.3], ['wait', 0.3]]},
+    # interleaved arrivals user0, user1, user0; the server reports user0 offline; the later upload of user0 is aborted:
+    # user0 stays tracked (one upload is left), stays offline for every later cycle, and is not served when slots open;
+    # when the last one is finalized too the user is let go, and comes back (status unknown until answered) with a new one
+    {'kind': 'directed-interleaved-finalized', 'slots': 0, 'ops': [
+        ['addUpload', 0, 0], ['addUpload', 1, 0], ['addUpload', 0, 0], ['wait', 0.3], ['setUser', 0, 'OFFLINE', False, False, 0],
+        ['wait', 0.3], ['abort', 2, 0], ['wait', 0.3], ['setSlots', 4, 0], ['addUpload', 3, 0], ['wait', 0.5],
+        ['abort', 0, 0], ['wait', 0.3], ['setUser', 0, 'ONLINE', False, False, 0], ['addUpload', 0, 0.3], ['wait', 0.3]]},
+    # the same on a slow server connection (answers take 60 ms, longer than the management interval)
+    {'kind': 'directed-interleaved-finalized/slow-server', 'slots': 0, 'net': {'reply_delay': 0.06}, 'ops': [
+        ['setUser', 0, 'OFFLINE', False, False, 0], ['addUpload', 0, 0], ['addUpload', 1, 0], ['addUpload', 0, 0],
+        ['wait', 0.3], ['abort', 2, 0], ['wait', 0.3], ['setSlots', 4, 0], ['addUpload', 3, 0], ['wait', 0.5]]},
 ]
 
 
@@ -684,9 +790,16 @@ def _features(case: dict, impl: dict) -> set:
     feats = set()
     n_sel = 0
     states_seen = set()
-    for e in impl['log']:
+    reported = dict(_reference(impl['log']))
+    prev_unf: set = set()
+    ever_unf: set = set()
+    heard: set = set()            # users the server said something about while they were tracked
+    for idx, e in enumerate(impl['log']):
+        if e[0] == 'told' and e[3] is not None:
+            heard.add(e[2])
         if e[0] == 'cycle':
             _, started, info = e
+            users = reported[idx]
             sel = [k for kind, k in started if kind == 'T']
             if sel:
                 n_sel += 1
@@ -694,18 +807,43 @@ def _features(case: dict, impl: dict) -> set:
             active = [k for k, (u, d, st) in xs.items() if d == 'U' and st in ('INITIALIZING', 'UPLOADING')]
             busy = {xs[k][0] for k in active}
             elig = {u for k, (u, d, st) in xs.items() if d == 'U' and st == 'QUEUED'
-                    and info['users'][u][0] != 'OFFLINE' and u not in busy}
+                    and users[u][0] != 'OFFLINE' and u not in busy}
             free = max(0, info['slots'] - len(active))
             if len(elig) > free and elig:
                 feats.add('contention')
                 if free > 0:
                     feats.add('ranking-decided')
+                    if len({_klass(users[u]) for u in elig}) > 1:
+                        feats.add('ranking-decided-between-classes')
+                    if len({users[u][0] in ('ONLINE', 'AWAY') for u in elig}) > 1:
+                        feats.add('ranking-decided-by-reported-status')
             if len(active) > info['slots']:
                 feats.add('over-limit-after-lowering')
-            if any(st == 'QUEUED' and info['users'][u][0] == 'OFFLINE' for k, (u, d, st) in xs.items() if d == 'U'):
+            if any(st == 'QUEUED' and users[u][0] == 'OFFLINE' for k, (u, d, st) in xs.items() if d == 'U'):
                 feats.add('offline-user-queued')
+                if free > len(sel):
+                    feats.add('offline-user-queued-while-slot-free')
             if any(st == 'QUEUED' and u in busy for k, (u, d, st) in xs.items() if d == 'U'):
                 feats.add('second-upload-of-busy-user')
+            # tracking situations
+            unf = {u for _k, (u, _d, st) in xs.items() if st not in FINAL}
+            if (prev_unf - unf):
+                feats.add('user-let-go')
+            if (unf - prev_unf) & ever_unf:
+                feats.add('user-comes-back')
+            prev_unf = unf
+            ever_unf |= unf
+            order = [xs[k][0] for k in sorted(xs)]
+            for u in unf:
+                pos = [i for i, v in enumerate(order) if v == u]
+                if len(pos) > 1 and any(order[i] != u for i in range(pos[0], pos[-1])):
+                    sts = [xs[k][2] for k in sorted(xs) if xs[k][0] == u]
+                    if any(st in FINAL for st in sts):
+                        feats.add('interleaved-user-with-finalized-transfer')
+                        if u in heard and users[u][0] == 'OFFLINE':
+                            feats.add('interleaved-offline-user-with-finalized-transfer')
+            if info.get('inflight'):
+                feats.add('cycle-sees-upload-in-flight')
         elif e[0] == 'state':
             states_seen.add(e[3])
         elif e[0] == 'op' and e[2] == 'refused':
@@ -715,10 +853,13 @@ def _features(case: dict, impl: dict) -> set:
     racing = False
     for e in impl['log']:
         if e[0] == 'opline':
-            racing = e[1].startswith('setUser')
+            racing = False
+        elif e[0] == 'told':
+            racing = True
         elif e[0] == 'cycle' and racing:
+            racing = False
             busy_active = [x for x in e[2]['xs'] if x[2] == 'U' and x[3] in ('INITIALIZING', 'UPLOADING')]
-            if busy_active:
+            if busy_active and any(op[0] == 'abortRace' for op in case['ops']):
                 feats.add('cycle-while-abort-waits')
     for s in ('UPLOADING', 'COMPLETE', 'FAILED', 'ABORTED'):
         if s in states_seen:
@@ -726,7 +867,7 @@ def _features(case: dict, impl: dict) -> set:
     # an op that ran after a cycle in the same loop iteration (before the init tasks' first step)
     log = impl['log']
     for i, e in enumerate(log):
-        if e[0] == 'cycle' and e[1] and i + 1 < len(log) and log[i + 1][0] in ('op', 'slots', 'user', 'add') :
+        if e[0] == 'cycle' and e[1] and i + 1 < len(log) and log[i + 1][0] in ('op', 'slots', 'friend', 'add') :
             feats.add('op-between-decision-and-initialize')
         if e[0] == 'cycle' and e[1] and i + 2 < len(log) and log[i + 1][0] == 'state' and log[i + 1][3] == 'ABORTED':
             feats.add('op-between-decision-and-initialize')
@@ -738,30 +879,47 @@ class C05(Property):
     props_module = 'AioslskVerif.Props.C05'
     driver_module = 'AioslskVerif.Driver.C05'
     rule = ('85 % of the cases start from a contended population: slot limit 1..4, slots+1..slots+2 (<= 5) users with mixed '
-            'status/friend/privilege (at most so many offline that eligible users still outnumber the slots), one or two '
-            'queued uploads per user, all queued inside one sleep of the management job so that the next cycle has to rank; '
-            '15 % start empty (slot limit 0..4, 1..5 users). Then 4..12 ops (thorough: ..24) out of: peer queues an upload, '
-            'download added, initialisation succeeds / is refused / falls back to the queue at one of 5 stages, upload '
-            'completes / fails, peer re-queue, API queue, abort, limit change (mostly by one step while uploads are active), '
-            'user attribute change, each preceded by a virtual delay from {0, 0.02, 0.05 (= the management timer), 0.1, 0.3} s; '
-            'management cycles are run by the real job and logged where they happen; derived from VERIF_SEED. A case is '
-            'non-trivial when at least one cycle had more eligible users than free slots with a free slot to give (a ranking '
-            'decision) and at least two cycles started uploads; distinct = distinct canonical case')
+            'status/friend/privilege on the server (at most so many offline that eligible users still outnumber the slots), '
+            'one to three queued uploads per user in interleaved arrival order, optionally a privileged list; `cold` set-ups '
+            'queue everything inside one sleep of the management job (the ranking cycle has not heard from the server yet), '
+            '`warm` set-ups queue with no slot, let the client start tracking and the server answer, abort some of the '
+            'queued uploads of users with several, change statuses, then open the slots; 15 % start empty (slot limit 0..4, '
+            '1..5 users). Then 4..12 ops (thorough: ..24) out of: peer queues an upload, download added, initialisation '
+            'succeeds / is refused / falls back to the queue at one of 5 stages, upload completes / fails, peer re-queue, '
+            'API queue, abort (profile `tracking`: preferably one of several uploads of a user that are apart in the list), '
+            'abort racing a cycle, limit change (mostly by one step while uploads are active), change of a user on the '
+            'server (reported iff the client watches the user) + friend list, privileged list, each preceded by a virtual '
+            'delay from {0, 0.02, 0.05 (= the management timer), 0.1, 0.3} s; 12 % of the cases run on a slow server '
+            'connection (answer to the tracking request after 0.01..0.2 s or never; monitor only); management cycles are run '
+            'by the real job and logged where they happen; derived from VERIF_SEED. A case is non-trivial when at least one '
+            'cycle had more eligible users than free slots with a free slot to give (a ranking decision) and at least two '
+            'cycles started uploads; distinct = distinct canonical case')
     assumptions = [
         'the management job sleeps >= MIN_TRANSFER_MGMT_INTERVAL between two cycles and `initialize()` of a freshly '
         'created initialize-upload task is not delayed by a held state lock, so no cycle sees a selected upload still '
         'QUEUED (checked on every real cycle: a running task on a QUEUED upload is reported as a granularity break)',
-        'collaborators (user manager, shares manager, network) are scripted stubs; the peer side of an upload is the '
-        'schedule',
-        'raising upload_slots does not by itself request a cycle (settings are plain attributes); the reading only '
+        'shares manager and peer network are scripted stubs; the peer side of an upload is the schedule; the user manager '
+        'is the real one, the server it talks to is simulated: it answers every AddUser with the truth, reports a change '
+        'of a user iff the client has the user on its watch list (AddUser sent, RemoveUser not), in order',
+        'what the client must know about a user is judged from the first management cycle that sees an unfinished transfer '
+        'of the user (that cycle asks the server) until the first cycle that sees none: within that span every decision '
+        'is judged against what the server last reported; at its first cycle, against what the scheduler itself read',
+        'exact correspondence of the tracking bookkeeping assumes the answer to AddUser arrives within the loop step of '
+        'the request (tracking settles between two management cycles); slower answers are exercised monitor-only',
+        'raising upload_slots or changing the friend list does not by itself request a cycle (settings are plain '
+        'attributes; in the full client the user manager\'s 1 s job announces friend-list changes); the reading only '
         'demands work conservation after a cycle',
         'TransferManager.queue is only called from the states its docstring lists',
     ]
     modelled = ('manage_transfers (upload part), _get_queued_transfers (upload list), _prioritize_uploads, '
                 'get_free_upload_slots, request_management_cycle/_management_job coalescing (cyclePending), the upload '
                 'state changes QUEUED/INITIALIZING/UPLOADING/COMPLETE/FAILED/ABORTED incl. abort, peer re-queue, API '
-                'queue. Exercised, not modelled: the stages inside _initialize_upload/_upload_file (collapsed to their '
-                'state change), manage_user_tracking, downloads beyond "a queued download takes no upload slot"')
+                'queue; manage_user_tracking + UserManager.get_user_object/track_user/untrack_user + the weak `_users` '
+                'dictionary at cycle granularity (who is held, what status / privilege the held object carries after '
+                'AddUser.Response / GetUserStatus.Response / PrivilegedUsers.Response). Exercised, not modelled: the stages '
+                'inside _initialize_upload/_upload_file (collapsed to their state change), the tracking tasks / retry '
+                'timers / AddUser-RemoveUser traffic (C15), slow answers of the server, downloads beyond "a queued '
+                'download takes no upload slot"')
 
     def regenerate(self):
         from translate import sched_constants
@@ -785,6 +943,10 @@ class C05(Property):
         if model_ok:
             lines, spans = [], []
             for c, io in zip(cases, impl):
+                if c.get('net'):                     # slow server connection: monitor only
+                    scripts.append(None)
+                    spans.append((len(lines), 0))
+                    continue
                 ls, obs = _script(c, io)
                 scripts.append((ls, obs))
                 lines.append(f"reset {c['slots']}")
@@ -803,14 +965,17 @@ class C05(Property):
                 res.count('op:' + op[0])
             ncyc = sum(1 for e in io['log'] if e[0] == 'cycle')
             res.count('cycles', ncyc)
+            res.count('server-reports-delivered', sum(1 for e in io['log'] if e[0] == 'told'))
             feats = _features(c, io)
             for f in feats:
                 res.count('feature:' + f)
             if 'ranking-decided' in feats and 'two-cycles-started-uploads' in feats:
-                res.nontrivial_keys.add(common.sha([c['slots'], c['ops']]))
+                res.nontrivial_keys.add(common.sha([c['slots'], c['ops'], c.get('net')]))
             for g in io['granularity']:
                 res.disagreements.append(Disagreement(c, g, None, 'granularity: ' + g[0]))
-            if model is not None:
+            if c.get('net'):
+                res.count('monitor-only (slow server connection)')
+            if model is not None and scripts[i] is not None:
                 res.traces_validated += 1
                 ls, obs = scripts[i]
                 mo = _model_obs(ls, model[i], obs)
